@@ -1,6 +1,6 @@
 (** Property C11 — every issue is fully described and its message is chosen most-specific-first. *)
 From Coq Require Import String List Bool.
-From Zog Require Import Model.Val Model.Fmt Gen.Tables Proofs.FmtP.
+From Zog Require Import Model.Val Model.Fmt Gen.Tables Proofs.FmtP Model.Options Proofs.OptionsP.
 Import ListNotations.
 Open Scope string_scope.
 
@@ -48,3 +48,8 @@ Theorem C11_i18n_falls_back_to_default : forall ls d dtype code ps v m, alookup 
   /\ forall l, alookup l ls = None -> i18n_format ls d (Some l) dtype code ps v = default_format m dtype code ps v.
 Proof. exact i18n_falls_back_to_default. Qed.
 Print Assumptions C11_i18n_falls_back_to_default.
+
+(** the execution-level formatter is the one of the call's last WithIssueFormatter option *)
+Theorem C11_call_formatter_is_last_option : forall opts, call_fmt opts = last_fmt opts.
+Proof. exact call_fmt_is_last_option. Qed.
+Print Assumptions C11_call_formatter_is_last_option.
